@@ -13,47 +13,48 @@ package server
 import (
 	"fmt"
 	"sort"
+	"strings"
 
 	"github.com/snower/slock/protocol"
 )
 
 type vfHold struct {
-	LockId     int
-	Depth      int
-	Count      uint16
-	Rcount     uint8
-	Prio       bool
-	GrantTick  int64
-	Unlimited  bool
-	DLo, DHi   int64 // possible values of the server-side deadline (expriedTime)
-	Sticky     bool  // a terms change may have shortened the deadline
-	Chain      []uint64
-	AckPending bool
-	FromQueue  bool
-	PendRelock bool   // the pending acknowledgement belongs to a re-entrant re-lock of an established hold
-	PrevReq    uint64 // request that held the terms before the pending re-lock
-	PendTick   int64
-	Grants     int // number of SUCCED lock replies (1 + re-locks)
-	WasUpdated bool
-	Req        uint64
+	LockId          int
+	Depth           int
+	Count           uint16
+	Rcount          uint8
+	Prio            bool
+	GrantTick       int64
+	Unlimited       bool
+	DLo, DHi        int64 // possible values of the server-side deadline (expriedTime)
+	Sticky          bool  // a terms change may have shortened the deadline
+	Chain           []uint64
+	AckPending      bool
+	FromQueue       bool
+	PendRelock      bool   // the pending acknowledgement belongs to a re-entrant re-lock of an established hold
+	PrevReq         uint64 // request that held the terms before the pending re-lock
+	PendTick        int64
+	Grants          int // number of SUCCED lock replies (1 + re-locks)
+	WasUpdated      bool
+	Req             uint64
 	overdueReported bool
 }
 
 type vfWaiter struct {
-	Req        uint64
-	LockId     int
-	Count      uint16
-	Prio       uint8
-	ArriveSeq  int
-	ArriveTick int64
-	TSecs      int64
-	WWU        bool // wait-when-unlocked flag
-	Client     int
-	Cancelled  bool
-	Expried    uint16
-	EFlag      uint16
-	Rcount     uint8
-	TFlag      uint16
+	Req             uint64
+	LockId          int
+	Count           uint16
+	Prio            uint8
+	ArriveSeq       int
+	ArriveTick      int64
+	TSecs           int64
+	WWU             bool // wait-when-unlocked flag
+	Client          int
+	Cancelled       bool
+	Expried         uint16
+	EFlag           uint16
+	Rcount          uint8
+	TFlag           uint16
 	overdueReported bool
 }
 
@@ -169,31 +170,31 @@ type vfFinding struct {
 }
 
 type vfShadow struct {
-	e        *vfEngine
-	keys     map[vfKeyId]*vfKeyState
-	findings []vfFinding
-	stats    map[string]int64
+	e              *vfEngine
+	keys           map[vfKeyId]*vfKeyState
+	findings       []vfFinding
+	stats          map[string]int64
 	stepStartEvent int
-	checkLCount bool
-	arriveSeq int
+	checkLCount    bool
+	arriveSeq      int
 	// per request bookkeeping for the ledger
-	terminal map[uint64]int // number of terminal replies
-	notices  map[uint64]int // number of EXPRIED notices
+	terminal map[uint64]int  // number of terminal replies
+	notices  map[uint64]int  // number of EXPRIED notices
 	chainOf  map[uint64]bool // requests that set the terms of some hold (may draw EXPRIED)
 	// C03 routing
 	misrouted int
 	// which keys were touched in this step (C04 evaluation)
 	touched map[vfKeyId]bool
-	noMs bool
+	noMs    bool
 	// value oracle (C15): evApplied is set by the reply handlers when the
 	// reply means that the request's value operation was executed
-	evApplied bool
-	onValue   func(kid vfKeyId, k *vfKeyState, r *vfReq, ev *vfEvent, applied bool)
+	evApplied     bool
+	onValue       func(kid vfKeyId, k *vfKeyState, r *vfReq, ev *vfEvent, applied bool)
 	onAckAdmit    func(kid vfKeyId, r *vfReq)
 	onAckRollback func(kid vfKeyId, r *vfReq)
 	onAckGrant    func(kid vfKeyId, k *vfKeyState, r *vfReq, ev *vfEvent) // SUCCED of a require-ack grant (C11 log check)
-	ackMark bool // set by handlers: this event is the completion of an ack-pending hold
-	faultSig string // non-empty once a fault was injected into this script: signature given to later findings
+	ackMark       bool                                                    // set by handlers: this event is the completion of an ack-pending hold
+	faultSig      string                                                  // non-empty once a fault was injected into this script: signature given to later findings
 }
 
 func vfNewShadow(e *vfEngine) *vfShadow {
@@ -220,7 +221,8 @@ func (s *vfShadow) key(id vfKeyId) *vfKeyState {
 }
 
 func (s *vfShadow) report(prop, clause, sig, format string, args ...interface{}) {
-	if sig == "" && s.faultSig != "" {
+	if s.faultSig != "" && (sig == "" || strings.HasPrefix(sig, "rollback-")) {
+		// after an injected log-write failure the rollback itself is what the documented finding is about
 		sig = s.faultSig
 	}
 	s.findings = append(s.findings, vfFinding{Prop: prop, Clause: clause, Sig: sig, Detail: fmt.Sprintf(format, args...)})
